@@ -179,6 +179,18 @@ def check(ctx):
         if isinstance(bases, ast.Tuple) and any(Pat("type(exc)").match(e) is not None for e in bases.elts) and any(unparse(e) == "RemoteException" for e in bases.elts):
             ok = True
     ctx.ob("SUB.remote-exception", re_, "type(name, (RemoteException, type(exc)), ...)", ok, "" if ok else "wrapper type does not derive from the original exception type")
+    # the wrapper cache must be keyed by the exception *type*: a cached wrapper is only a subclass of
+    # type(exc) if the key determines type(exc)
+    keys_used = []
+    for n in walk_no_nested(re_):
+        if isinstance(n, ast.Subscript) and unparse(n.value) == "exceptions":
+            keys_used.append((n, inline(n.slice, n, re_)))
+        if isinstance(n, ast.Compare) and len(n.ops) == 1 and isinstance(n.ops[0], (ast.In, ast.NotIn)) and unparse(n.comparators[0]) == "exceptions":
+            keys_used.append((n, inline(n.left, n, re_)))
+    ctx.count("remote_exception_cache_uses", len(keys_used))
+    for n, k in keys_used:
+        ok = Pat("type(exc)").match(k) is not None or Pat("exc.__class__").match(k) is not None
+        ctx.ob("SUB.remote-exception.cache-key", n, f"exceptions[{unparse(k)}]: wrapper cache keyed by the exception type", ok, "" if ok else f"cache key {unparse(k)} does not determine type(exc): a wrapper built for another type can be returned")
     # multiprocessing passes its own pack/raise functions
     mg = model.module("dask/multiprocessing.py").func("get")
     for c in [c for c in calls(mg) if call_name(c) == "get_async"]:
@@ -218,6 +230,7 @@ VARIANTS = [
     ("dask/threaded.py", "    return e, sys.exc_info()[2]", "    return e, sys.exc_info()[2], None", "TAB.exc-pair.producer"),
     ("dask/multiprocessing.py", "(RemoteException, type(exc)),", "(RemoteException, Exception),", "SUB.remote-exception"),
     ("dask/multiprocessing.py", "            raise_exception=reraise,\n", "", "DELEG.mp-exception-hooks"),
+    ("dask/multiprocessing.py", "    if type(exc) in exceptions:\n        typ = exceptions[type(exc)]", "    if type(exc).__name__ in exceptions:\n        typ = exceptions[type(exc).__name__]", "SUB.remote-exception.cache-key"),
 ]
 
 
